@@ -103,6 +103,15 @@ def check(prop, tier):
     if st["tlc_errors"] or bad or mach:
         common.machinery("relayout: tlc=%s design=%s binding=%s" % (st["tlc_errors"][:2], bad, [(f["input"], f["config"]) for f in mach[:3]]))
     mine = [f for f in r["findings"] if f["property"] == prop]
+    # C05 at the lexical level: TLC on the transcription of the tokenizer (delimiters separate, with or without blanks) and
+    # the same clause on every recorded run of the real tokens.create (exhaustive strings, random strings, corpus lines)
+    import lexfam
+
+    lr = lexfam.collect(tier)
+    lbad = [d for d in lr["design"] if not d["ok"]]
+    if lr["stats"]["tlc_errors"] or lbad:
+        common.machinery("lexer family: tlc_errors=%s design=%s" % (lr["stats"]["tlc_errors"][:2], lbad))
+    mine += [f for f in lr["findings"] if f["property"] == prop]
     known_hits, new = F.split_known(mine, prop)
     rc = common.report(prop, known_hits, new, lambda f: F.write_replay(prop, f))
     cov = {
@@ -110,10 +119,11 @@ def check(prop, tier):
         "distinct_nontrivial": st["pairs"],
         "rule": "one (file, recipe) pair: the file and its re-layout are both classified by the real parser; every pair is distinct and non-trivial (the recipe changed the text)",
         "samples": r["samples"] or [{"note": "none"}],
-        "states": sum(d["states"] for d in r["design"]) + st["tlc_states"],
-        "transitions": sum(d["states"] for d in r["design"]) + st["tlc_states"],
+        "states": sum(d["states"] for d in r["design"] + lr["design"]) + st["tlc_states"],
+        "transitions": sum(d["states"] for d in r["design"] + lr["design"]) + st["tlc_states"],
         "traces_validated_against_impl": st["pairs"],
-        "design_models": r["design"],
+        "design_models": r["design"] + lr["design"],
+        "lexer_strings_checked": lr["stats"]["exhaustive_strings"] + lr["stats"]["random_strings"] + lr["stats"]["corpus_lines"],
         "files": st["files"],
         "pairs_by_recipe": st["by_recipe"],
         "code_tokens_compared": st["code_tokens"],
